@@ -160,6 +160,10 @@ def out_of_domain(case, mline):
             word = data.lstrip(b":").split(b" ", 1)[0] if not data.startswith(b":") else (data.split(b" ", 2)[1] if len(data.split(b" ", 2)) > 1 else b"")
             if any(c >= 0x80 for c in word):
                 return "non-ascii-command"
+            if e["k"] == "M" and not re.match(rb"^[0-9a-fA-F.:]*\Z", e.get("ra", b"")):
+                # a remote address with regular-expression syntax in it: the model's matcher covers quoted masks and plain
+                # addresses (RE2's parser is not modelled); such histories still run on the implementation under all monitors
+                return "remote-address-outside-model"
     return None
 
 
